@@ -217,7 +217,8 @@ def run(ctx):
         # several objects alive together: the relation on all of them and sorted()/min()/max() of arrangements
         oc = order_cases(rng, pop, quick)
         refused, bad = 0, []
-        for rq, r in zip(oc, run_impl(oc)):
+        order_results = run_impl(oc)
+        for rq, r in zip(oc, order_results):
             if isinstance(r, Err):
                 if r.kind in ("SingletonError", "ObjectInitError"):
                     refused += 1
@@ -227,6 +228,24 @@ def run(ctx):
             what = check_order(rq[1][1], r) or check_sorted(rq[1][1], r, rq[1][3])
             if what:
                 bad.append((rq, what))
+        # the same arrangements through the model: sorted()/min()/max() = the stable sort of Base/Sort.v (C10_sorted_* theorems)
+        sreqs, simpl = [], []
+        for rq, r in zip(oc, order_results):
+            if isinstance(r, Err):
+                continue
+            keys, arr = r[0], r[3]
+            for p_, (srt, mn, mx, _rev) in zip(rq[1][3], arr):
+                sreqs.append(("sorted_" + rq[1][1], [keys[i] for i in p_]))
+                simpl.append((rq, [[keys[i] for i in srt], keys[mn], keys[mx]]))
+        sdiff = 0
+        for sq, m, (rq, want) in zip(sreqs, run_model(sreqs), simpl):
+            if m != want:
+                sdiff += 1
+                if sdiff <= 5:
+                    diffs.append((len(diffs), sq, m, want))
+                    bad.append((rq, f"sorted()/min()/max() of {sq[1]} give {want}, the stable sort of the model gives {m}"))
+        ctx.cov["correspondence"]["sorted-vs-model"] = {"cases": len(sreqs), "disagreements": sdiff}
+        ctx.add_eval(len(sreqs), len({json.dumps(w) for _, w in simpl}))
         for rq, what in bad[:5]:
             # the smallest part of the tuple (a pair or a triple, all arrangements) that fails on its own
             subs = sub_triples(rq[1])
